@@ -147,6 +147,8 @@ struct Ctx<'a> {
     st: Option<u32>,
     seed: u64,
     shard: usize,
+    /// `--f64_precision count`: deficits explained by f64 rounding alone are counted, not reported
+    f64_class_counted_only: bool,
 }
 
 /// judge a family; every horizon is one evaluation
@@ -239,6 +241,12 @@ fn run_family(ctx: &Ctx, local: &mut Local, f: &Family, mode: &str) {
             // error, i.e. >= 1 unit from ~2^47 on); anything else is a logic error.
             let s = if c > (1u64 << 46) && (deficit as u128) << 40 <= c as u128 {
                 local.count("observed.deficit_within_f64_precision");
+                if ctx.f64_class_counted_only {
+                    // `--f64_precision count`: the lead decided to document this class as a
+                    // limit of the estimator instead of alarming on it
+                    prev = Some(got_obs);
+                    continue;
+                }
                 "below_compounded f64_precision_only".to_string()
             } else {
                 format!("below_compounded region={} magnitude{}", region(h as u64, f.pct), magnitude(c))
@@ -302,6 +310,8 @@ pub fn big_prices() -> Vec<u64> {
 
 pub fn run(args: &Args, report: &Report) {
     let st = selftest(args);
+    let f64c = args.extra.get("f64_precision").map(|v| v == "count").unwrap_or(false);
+    report.info("f64_precision_class", json!(if f64c { "counted only (observed.deficit_within_f64_precision)" } else { "reported as violation" }));
     let rule = "exhaustive grid: every horizon 0..=64 x every percentage 0..=64 x a fixed price set (0,1,2,3,7,99,100,101,1e3,12345,\
                 1e6,1e9+7,1e12,1e15,2^41,2^47 and the >=2^53 set 2^53-1,2^53,2^53+1,1e16,cutoff,1e17,1e18,u64::MAX/2,u64::MAX-1,\
                 u64::MAX) x 2 base heights x 4 entry points — this contains the whole precomputed table, its edges and the \
@@ -325,7 +335,7 @@ pub fn run(args: &Args, report: &Report) {
                     base: base as u32,
                     max_h: max_h as u32,
                 };
-                let ctx = Ctx { report, st, seed: args.seed, shard: 0 };
+                let ctx = Ctx { report, st, seed: args.seed, shard: 0, f64_class_counted_only: f64c };
                 let mut local = Local::new();
                 run_family(&ctx, &mut local, &f, "replay");
                 local.flush(report);
@@ -354,7 +364,7 @@ pub fn run(args: &Args, report: &Report) {
         let all_prices2 = all_prices.clone();
         let shards = (max_pct + 1) as usize;
         run_shards(report, args, shards, move |shard, _s| {
-            let ctx = Ctx { report: &report2, st, seed, shard };
+            let ctx = Ctx { report: &report2, st, seed, shard, f64_class_counted_only: f64c };
             let mut local = Local::new();
             let pct = shard as u64;
             for &path in &paths {
@@ -376,7 +386,7 @@ pub fn run(args: &Args, report: &Report) {
         let seed = args.seed;
         let per_shard: usize = args.by_tier(1_500, 20_000);
         run_shards(report, args, 32, move |shard, s| {
-            let ctx = Ctx { report: &report2, st, seed, shard };
+            let ctx = Ctx { report: &report2, st, seed, shard, f64_class_counted_only: f64c };
             let mut local = Local::new();
             let mut rng = rng_for(s, &[tag("c35-random")]);
             for i in 0..per_shard {
